@@ -191,6 +191,10 @@ func reenterLibrary() {
 	}
 }
 
+// WriteBufferViolations collects changes of a Write argument during Write
+// (single-goroutine plans only; reported by the sessions engine).
+var WriteBufferViolations []string
+
 // SimWriter records what it is given and may fail.
 type SimWriter struct {
 	Buf    []byte
@@ -211,7 +215,15 @@ func (w *SimWriter) Write(p []byte) (int, error) {
 	verifsim.Yield(seamWrite)
 	w.Writes++
 	if w.w.Reenter {
+		// the bytes handed to Write belong to the writer for the duration of the
+		// call: they must not change while the writer itself uses the library
+		before := string(p)
 		reenterLibrary()
+		if string(p) != before {
+			Count("write_buffer_changed")
+			WriteBufferViolations = append(WriteBufferViolations, fmt.Sprintf("the slice passed to Write changed during the call (a nested Marshal/Unmarshal inside Write overwrote it): before %s, after %s", short([]byte(before)), short(p)))
+			p = []byte(before)
+		}
 	}
 	if w.w.FailAt != 0 && w.Writes == w.w.FailAt {
 		if w.w.Short {
